@@ -83,6 +83,7 @@ def _case_strategy(modes, wire_modes):
     spec = draw(gen.space(max_depth=depth))
     trials = draw(st.lists(gen.trial(spec), min_size=1, max_size=5))
     c = {'mode': mode, 'space': spec, 'trials': trials,
+         'merge_conditions': draw(st.booleans()),
          'build': draw(st.sampled_from(['study_config', 'from_problem']))}
     if capped:
       c['wire_depth_capped'] = True
@@ -363,7 +364,13 @@ def check_local(case):
   cfg = _config(case)
   lost = ()
   if case['mode'] == 'proto_rt':
-    cfg = svz.StudyConfig.from_proto(cfg.to_proto())
+    proto = cfg.to_proto()
+    if case.get('merge_conditions'):
+      # the form other writers of the wire format produce: one conditional
+      # spec per child listing ALL its matching parent values
+      if _merge_conditional_specs(proto):
+        out.cls('wire_multi_parent_value_condition')
+    cfg = svz.StudyConfig.from_proto(proto)
     lost = _lost_names(spec, cfg)
   for i, t in enumerate(case['trials']):
     params = dict(t['params'])
@@ -382,6 +389,38 @@ def check_local(case):
     _judge(out, 'StudyConfig.trial_parameters[%s]' % case['mode'], spec,
            params, lambda: cfg.trial_parameters(proto), lost)
   return out
+
+
+def _merge_conditional_specs(study_spec):
+  """Rewrites every parameter's conditional specs so that children with an
+  identical spec under several parent values share one conditional spec whose
+  condition lists all those values. Returns True if anything was merged."""
+  merged_any = [False]
+
+  def rec(pspec):
+    groups = []  # (serialized child spec, condition field, conditional spec)
+    for cs in pspec.conditional_parameter_specs:
+      rec(cs.parameter_spec)
+    for cs in list(pspec.conditional_parameter_specs):
+      field = cs.WhichOneof('parent_value_condition')
+      key = (cs.parameter_spec.SerializeToString(deterministic=True), field)
+      for k, target in groups:
+        if k == key:
+          getattr(target, field).values.extend(getattr(cs, field).values)
+          merged_any[0] = True
+          break
+      else:
+        groups.append((key, cs))
+    if merged_any[0]:
+      kept = [type(cs)() for _, cs in groups]
+      for new, (_, cs) in zip(kept, groups):
+        new.CopyFrom(cs)
+      del pspec.conditional_parameter_specs[:]
+      pspec.conditional_parameter_specs.extend(kept)
+
+  for p in study_spec.parameters:
+    rec(p)
+  return merged_any[0]
 
 
 def check_service(case):
@@ -489,7 +528,8 @@ def families(tier):
                   budget={'quick': 1200, 'thorough': 30000},
                   shards={'quick': 8, 'thorough': 16},
                   required_classes=_COMMON_REQUIRED + (
-                      'mode_direct', 'mode_proto_rt', 'depth3',
+                      'mode_direct', 'mode_proto_rt',
+                      'wire_multi_parent_value_condition', 'depth3',
                       'inactive_parent_absent',
                       'valid_trial_active_depth3')),
       core.Family('service', check_service, strategy=service_strategy,
